@@ -44,8 +44,10 @@ def main():
     ap.add_argument("--tier", default="quick")
     ap.add_argument("-v", action="store_true")
     ap.add_argument("--jobs", type=int, default=16, help="seeds analysed concurrently")
+    ap.add_argument("--dir", default="seeded", help="sub-directory of /verif holding the changes (seeded | refactors)")
+    ap.add_argument("--expect-clean", action="store_true", help="the changes preserve behaviour: every check must exit 0 (reports false alarms)")
     a = ap.parse_args()
-    seeds = sorted(d for d in (VERIF / "seeded").iterdir() if d.is_dir())
+    seeds = sorted(d for d in (VERIF / a.dir).iterdir() if d.is_dir())
     if a.seeds:
         want = set(a.seeds.split(","))
         seeds = [s for s in seeds if s.name in want]
@@ -61,17 +63,22 @@ def main():
             continue
         jobs.append((s, props))
     detected = 0
+    nonclean = 0
     with ThreadPoolExecutor(max_workers=a.jobs) as ex:
         for name, res in ex.map(lambda j: run_one(j[0], j[1], a.tier, a.v), jobs):
             hits = [p for p, v in res.items() if isinstance(v, tuple) and v[0] == 1]
             inc = [p for p, v in res.items() if isinstance(v, tuple) and v[0] == 2]
             detected += bool(hits)
+            nonclean += bool(hits or inc)
             print(f"{name:10} detected_by={hits} incomplete={inc} " + (str(res.get('_patch', '')) if '_patch' in res else ''))
             if a.v:
                 for p, v in res.items():
                     if isinstance(v, tuple) and v[0] != 0:
                         print("   ", "\n    ".join(v[2].splitlines()[:12]))
-    print(f"detected {detected}/{len(jobs)}")
+    if a.expect_clean:
+        print(f"changes with a check that did not exit 0: {nonclean}/{len(jobs)}")
+    else:
+        print(f"detected {detected}/{len(jobs)}")
 
 
 if __name__ == "__main__":
